@@ -199,6 +199,22 @@ pub fn single_input_findings(input: &str, o: &Outcome, check_garbage: bool) -> V
     if let Res::Ok(command) = &o.kip {
         out.extend(accepted_findings(input, command, check_garbage));
     }
+    // what a specific entry point returns passes the parser's own validation too
+    let specific: [(&str, Option<Command>); 3] = [
+        ("parse_kql", if let Res::Ok(q) = &o.kql { Some(Command::Kql(q.clone())) } else { None }),
+        ("parse_kml", if let Res::Ok(s) = &o.kml { Some(Command::Kml(s.clone())) } else { None }),
+        ("parse_meta", if let Res::Ok(m) = &o.meta { Some(Command::Meta(m.clone())) } else { None }),
+    ];
+    for (name, command) in specific {
+        if let Some(command) = command
+            && let Ok(Err(e)) = catch_unwind(AssertUnwindSafe(|| validate_command(&command)))
+        {
+            out.push(finding(
+                &format!("accepted-by-{name}-but-validate-fails"),
+                format!("validate_command: {:?} {}", e.code, e.message),
+            ));
+        }
+    }
     out
 }
 
